@@ -44,13 +44,25 @@ def replay_call(module, call):
     return {"error": (p.stderr or p.stdout)[-300:]}
 
 
+def write_pycall_replay(prop, module, call):
+    import hashlib
+
+    d = os.path.join(VERIF, "replays", prop)
+    os.makedirs(d, exist_ok=True)
+    payload = {"kind": "pycall", "property": prop, "module": module, "call": call}
+    h = hashlib.sha1(json.dumps(payload, sort_keys=True).encode()).hexdigest()[:12]
+    path = os.path.join(d, h + ".json")
+    json.dump(payload, open(path, "w"), indent=1)
+    return path
+
+
 def run(prop, module, tier, per_condition_timeout=None, only=None):
     t0 = time.time()
     path = os.path.join(VERIF, *module.split(".")) + ".py"
     fns = _functions(path)
     if only:
         fns = [f for f in fns if only in f[0]]
-    tmo = per_condition_timeout or (30 if tier == "quick" else 120)
+    tmo = per_condition_timeout or (60 if tier == "quick" else 240)
     procs = []
     for name, line, doc in fns:
         cmd = [harness.PY, "-W", "ignore", "-m", "crosshair", "check", "--report_all", "--per_condition_timeout", str(tmo),
@@ -82,7 +94,8 @@ def run(prop, module, tier, per_condition_timeout=None, only=None):
             bad = rep.get("returned") is False or "raised" in rep
             if bad:
                 verdict = "violation"
-                rec = {"key": f"{name}:{call}", "case": module, "detail": f"{what}; replay: {rep}", "replay": f"{module}::{call}"}
+                rpath = write_pycall_replay(prop, module, call)
+                rec = {"key": f"{name}:{call}", "case": module, "detail": f"{what}; replay: {rep}", "replay": rpath}
                 kf = harness.match_known(prop, module, rec["key"])
                 if kf:
                     rec["known"] = kf["id"]
@@ -96,6 +109,27 @@ def run(prop, module, tier, per_condition_timeout=None, only=None):
             why = "Not confirmed" if "Not confirmed" in outp else ("Unable to meet precondition" if "Unable to meet" in outp else detail[-200:])
             extra["inconclusive"].append({"key": name, "case": module, "why": f"CrossHair: {why}"})
         rows.append({"function": name, "verdict": verdict, "detail": detail[-200:]})
+    # twins: drop their own "violations" (they are wrong on purpose) and downgrade the property whose twin survived
+    byname = {r["function"]: r for r in rows}
+    keep_v, keep_k = [], []
+    for rec in extra["violations"]:
+        fn = rec["key"].split(":")[0]
+        if not fn.endswith("_twin"):
+            keep_v.append(rec)
+    extra["violations"] = keep_v
+    for name in list(byname):
+        if name.endswith("_twin"):
+            extra["obligations"] -= 1
+            if byname[name]["verdict"] == "confirmed":
+                extra["discharged"] -= 1
+            base = name[: -len("_twin")]
+            refuted = byname[name]["verdict"] == "violation"
+            byname[name]["twin_refuted"] = refuted
+            if not refuted and base in byname and byname[base]["verdict"] == "confirmed":
+                extra["discharged"] -= 1
+                byname[base]["verdict"] = "confirmed-but-twin-survived"
+                extra["inconclusive"].append({"key": base, "case": module, "why": "CrossHair confirmed the property but did not refute its wrong twin"})
+    extra["inconclusive"] = [i for i in extra["inconclusive"] if not str(i.get("key", "")).endswith("_twin")]
     extra["samples"] = [{"crosshair_function": r["function"], "verdict": r["verdict"]} for r in rows[:4]]
     extra["coverage"] = {"crosshair": {"module": module, "per_condition_timeout_s": tmo, "functions": rows,
                                        "wall_s": round(time.time() - t0, 1)}}
